@@ -24,7 +24,7 @@ def run(ctx):
             ctx.cov["design_step_detects_fifo_smaller_than_backlog"] = bool(r["violated"] and "AcceptParentPopulated" in r["violated"])
             if not ctx.cov["design_step_detects_fifo_smaller_than_backlog"]:
                 raise vlib.Infra("sensitivity: SnowVM_MC_smallfifo no longer violates AcceptParentPopulated")
-    fails, stats = S.record_and_validate(ctx, ["ready"], ctx.pick(80, 3000), ctx.pick(50, 80), "ready")
+    fails, stats = S.record_and_validate(ctx, ["ready"], ctx.pick(80, 1200), ctx.pick(50, 70), "ready")
     if ctx.only is None:
         for k in ("ev_reject", "ev_build", "ev_dequeue", "ev_process", "ev_accept"):
             if not stats.get(k):
